@@ -158,27 +158,44 @@ package cache
 // C11 concurrent mode: every write of these operations to memory that existed before the call
 // happens under an exclusive lock (or is atomic), and every callee that writes shared memory is
 // itself verified in concurrent mode or runs inside the critical section.
+// Interference: a method that enters a second critical section (releases the mutex and takes it
+// again) meets, at the second acquisition, a cache other goroutines have used in between: the
+// state its modifies clause names is arbitrary again, the representation invariant (its
+// precondition) holds again, and nothing else it learnt under the first lock survives. Methods
+// with a single critical section are unaffected.
 //@ func (*LRUCache).Get
 //@   opt concurrent yes
+//@   opt interference frame
 //@ func (*LRUCache).Put
 //@   opt concurrent yes
+//@   opt interference frame
 //@ func (*LRUCache).Delete
 //@   opt concurrent yes
+//@   opt interference frame
 //@ func (*LRUCache).Clear
 //@   opt concurrent yes
+//@   opt interference frame
 //@ func (*LRUCache).Size
 //@   opt concurrent yes
+//@   opt interference frame
 //@ func (*LRUCache).Capacity
 //@   opt concurrent yes
+//@   opt interference frame
 //@ func (*LRUCache).Stats
 //@   opt concurrent yes
+//@   opt interference frame
 //@ func (*LRUCache).Keys
 //@   opt concurrent yes
+//@   opt interference frame
 //@ func (*LRUCache).CleanupExpired
 //@   opt concurrent yes
+//@   opt interference frame
 //@ func (*SearchCache).Get
 //@   opt concurrent yes
+//@   opt interference frame
 //@ func (*SearchCache).Put
 //@   opt concurrent yes
+//@   opt interference frame
 //@ func (*SearchCache).Invalidate
 //@   opt concurrent yes
+//@   opt interference frame
